@@ -5,6 +5,7 @@ package c11
 import (
 	"fmt"
 	"math/rand"
+	"strings"
 	"sync"
 
 	"deps.dev/util/semver"
@@ -125,7 +126,11 @@ func one(r *ev.Run, sg sysgen, cs string, extra []string) {
 	r.Eval(1)
 	c2, err := sg.sys.ParseSetConstraint(s)
 	if err != nil {
-		r.Violation("C11:"+sg.name+":unparsable", fmt.Sprintf("%s: set of %q prints as %s which ParseSetConstraint rejects: %v", sg.name, cs, s, err), cc)
+		class := "unparsable"
+		if strings.Contains(cs, "9223372036854775806") {
+			class = "unparsable:max-int-component" // recorded finding: the successor of MaxInt64-1 is the infinity marker
+		}
+		r.Violation("C11:"+sg.name+":"+class, fmt.Sprintf("%s: set of %q prints as %s which ParseSetConstraint rejects: %v", sg.name, cs, s, err), cc)
 		return
 	}
 	if s2 := c2.Set().String(); s2 != s {
@@ -141,7 +146,11 @@ func one(r *ev.Run, sg sysgen, cs string, extra []string) {
 			r.Sample(map[string]string{"sys": sg.name, "constraint": cs, "set": s})
 		}
 	}
-	cands := gen.Boundary(s, 3, sg.maxN, []string{"-0", "-alpha"})
+	pre := []string{"-0", "-alpha"}
+	if sg.name == "NuGet" { // labels compare case-insensitively there
+		pre = []string{"-0", "-alpha", "-beta", "-RC", "-rc.1", "-Zeta"}
+	}
+	cands := gen.Boundary(s, 3, sg.maxN, pre)
 	if sg.pfx != "" {
 		for k := range cands {
 			cands[k] = sg.pfx + cands[k]
